@@ -15,3 +15,4 @@ void reg_slot();
 void reg_fs();
 void reg_proxy();
 void reg_life();
+void reg_lifed();
